@@ -75,7 +75,7 @@ class PatternToken(RegexpBaseToken):
     ~ - cancels pattern effect if placed before ? or * (cancels effect only for next symbol, but not for all)
     Would be useful to recognize argument in function e.g =COUNTIFS(A3:B3; "???le") or =COUNTIFS(A4:B7; "a*")
     """
-    regexp = r'\"(.*(?<![~])[?*]+.*)\"'
+    regexp = r'\"([^\"]*(?<![~])[?*]+[^\"]*)\"'
 
 
 # TODO добавить условие для локализации
@@ -95,7 +95,7 @@ class LiteralToken(RegexpBaseToken):
                 real_value = int(self.value[2]) * 10 ** int(self.value[7] or '0')
             real_value = repr(real_value)
         elif self.value[1] or self.value[0] == '""':
-            real_value = f'\'{self.value[1]}\''
+            real_value = repr(self.value[1])
         elif self.value[8]:
             real_value = 'True'
         elif self.value[10]:
